@@ -1,6 +1,13 @@
 package codescan
 
-import "go/ast"
+import (
+	"go/ast"
+	"reflect"
+	"strconv"
+	"strings"
+
+	"github.com/go-openapi/spec"
+)
 
 // vs_goJSONType / vs_goJSONFormat: how encoding/json represents a value of a Go builtin type
 // (encoding/json package documentation, "Marshal"): booleans as JSON booleans, integer and
@@ -78,3 +85,75 @@ func vs_wfTypeExpr(e ast.Expr) bool {
 	}
 	return true
 }
+
+// ---- json struct tags (encoding/json, "Marshal": struct tag conventions) ----
+
+// vs_fieldName: the Go name of the field ("" for an embedded field).
+func vs_fieldName(f *ast.Field) string {
+	if len(f.Names) > 0 {
+		return f.Names[0].Name
+	}
+	return ""
+}
+
+// vs_hasJSONTag: the field carries a well-formed, non-blank struct tag literal.
+func vs_hasJSONTag(f *ast.Field) bool {
+	if f.Tag == nil || len(strings.TrimSpace(f.Tag.Value)) == 0 {
+		return false
+	}
+	tv, err := strconv.Unquote(f.Tag.Value)
+	return err == nil && strings.TrimSpace(tv) != ""
+}
+
+// vs_jsonOpts: the comma-separated parts of the `json:"..."` key of the struct tag (the first
+// part is the name, the others are options).
+func vs_jsonOpts(f *ast.Field) tagOptions {
+	tv, _ := strconv.Unquote(f.Tag.Value)
+	return tagOptions(strings.Split(reflect.StructTag(tv).Get("json"), ","))
+}
+
+// vs_jsonName: the JSON key of the field: the tag name, or the Go field name when the tag gives none.
+func vs_jsonName(f *ast.Field) string {
+	n := vs_jsonOpts(f).Name()
+	if n == "" || n == "-" {
+		return vs_fieldName(f)
+	}
+	return n
+}
+
+// ---- path item slots ----
+
+func vs_isMethod(m string) bool {
+	switch m {
+	case "GET", "POST", "PUT", "PATCH", "HEAD", "DELETE", "OPTIONS":
+		return true
+	}
+	return false
+}
+
+func vs_slot(p *spec.PathItem, m string) *spec.Operation {
+	switch m {
+	case "GET":
+		return p.Get
+	case "POST":
+		return p.Post
+	case "PUT":
+		return p.Put
+	case "PATCH":
+		return p.Patch
+	case "HEAD":
+		return p.Head
+	case "DELETE":
+		return p.Delete
+	case "OPTIONS":
+		return p.Options
+	}
+	return nil
+}
+
+// ---- literal conversion (strconv) ----
+
+func vs_floatOK(s string) bool { _, err := strconv.ParseFloat(s, 64); return err == nil }
+func vs_float(s string) float64 { f, _ := strconv.ParseFloat(s, 64); return f }
+func vs_boolOK(s string) bool   { _, err := strconv.ParseBool(s); return err == nil }
+func vs_bool(s string) bool     { b, _ := strconv.ParseBool(s); return b }
